@@ -371,7 +371,9 @@ StateVector =
         """
         from .orbit import Orbit
 
-        new_dict = self._data.copy()
+        # copy() so that the new object does not share its covariance,
+        # maneuver list or metadata with this one
+        new_dict = self.copy()._data
         new_dict["propagator"] = propagator
         return Orbit(self.base, **new_dict)
 
